@@ -114,7 +114,7 @@ func (c03) Execute(env *Env) {
 			if !applyOp(env, w, model, i, op) {
 				return
 			}
-			isPQ := quant != nil && quant.Type == models.QuantizerProduct
+			isPQ := quantTrigger(quant) > 0 // bookkeeping of the training trigger needs every operation
 			if len(p.Queries[i]) == 0 && !isPQ {
 				continue
 			}
